@@ -160,6 +160,7 @@ def run(case):
 
     if not verify(0, "initial"):
         return out
+    held = []
     for step, o in enumerate(case["ops"], 1):
         k = o["op"]
         if k == "update":
@@ -191,6 +192,7 @@ def run(case):
                 if not ok:
                     return out
                 out.check(m.df.equals(before), "shift:not_inplace_call_modified_original", f"step {step}")
+                held.append((m, before, step))  # the source list stays alive while the history goes on with the new one
                 m = m2
             P = P + np.einsum("nij,j->ni", R, s)
             slack[0] += 2e-7 * float(np.linalg.norm(s))
@@ -256,4 +258,15 @@ def run(case):
                           lambda: f"step {step}: field {oracle.MOTL_COLUMNS[int(np.argwhere(d20 > 1e-9 * np.maximum(1, np.abs(before20)))[0][1])]}")
         if not verify(step, k):
             return out
+        # two live lists: whatever was done to the derived list since must not have reached the list it was derived from
+        for mo, bf, st0 in held:
+            if not out.check(mo.df.equals(bf), "shift:later_operation_on_the_new_list_changed_the_source_list", f"derived at step {st0}, seen after step {step} ({k})"):
+                return out
     return out
+
+
+# rejected calls that run before every case (vlib/faults.py): nothing they leave behind - module state, library options,
+# stray files - may make the valid calls of the case violate the statement
+from vlib import faults as _faults  # noqa: E402
+
+fault_calls = _faults.for_property(ID)
